@@ -50,9 +50,13 @@ def load_known(prop):
 
     Returns (open_entries, fixed_entries).  `fixed` entries suppress nothing.
     """
-    path = os.path.join(VERIF, "known_findings.jsonl")
+    import glob
+    paths = [os.path.join(VERIF, "known_findings.jsonl")] + sorted(
+        glob.glob(os.path.join(VERIF, "known_findings.d", "*.jsonl")))
     opens, fixed = [], []
-    if os.path.exists(path):
+    for path in paths:
+        if not os.path.exists(path):
+            continue
         for line in open(path):
             line = line.strip()
             if not line or line.startswith("#"):
